@@ -259,4 +259,158 @@ theorem cg_basic (S : Sys V K) (hA : S.Linear) (c : Ctrl K τ) (nreset : Int) (f
             refine ⟨os, s0, s1, ?_, h3, h4, h5⟩
             rw [ht, h1]; simp
 
+/-! ### symmetric positive definite systems: no give-up, positive steps, strictly decreasing energy -/
+
+/-- `A` linear, self-adjoint and positive definite w.r.t. the symmetric bilinear form `ip`; the preconditioner
+    (or, without one, `ip` itself) positive definite.  Nothing else is assumed of the preconditioner. -/
+structure Sys.SPD (S : Sys V K) : Prop where
+  lin : S.Linear
+  bil : S.Bilinear
+  selfAdj : ∀ x y, S.ip x (S.A y) = S.ip (S.A x) y
+  A_pos : ∀ v, v ≠ 0 → 0 < S.ip v (S.A v)
+  P_pos : ∀ v, v ≠ 0 → 0 < S.ip v (precond S v)
+
+theorem ip_zero_right {S : Sys V K} (h : S.Bilinear) (x : V) : S.ip x 0 = 0 := by
+  have := h.smul_right 0 x x
+  simpa using this
+
+theorem ip_zero_left {S : Sys V K} (h : S.Bilinear) (x : V) : S.ip 0 x = 0 := by
+  rw [h.symm]; exact ip_zero_right h x
+
+/-- second-order expansion of the quadratic energy along a direction -/
+theorem trueValue_step {S : Sys V K} (hS : S.SPD) (x d : V) (a : K) :
+    trueValue S (x - a • d) = trueValue S x - a * S.ip (trueGrad S x) d + a * a / 2 * S.ip d (S.A d) := by
+  have e1 : S.A (x - a • d) = S.A x - a • S.A d := by rw [hS.lin.A_sub, hS.lin.A_smul]
+  have e2 : S.ip x (S.A d) = S.ip d (S.A x) := by rw [hS.selfAdj, hS.bil.symm]
+  unfold trueValue trueGrad
+  cases S.b with
+  | none =>
+    simp only
+    rw [e1]
+    simp only [hS.bil.sub_left, hS.bil.sub_right, hS.bil.smul_left, hS.bil.smul_right]
+    rw [e2, hS.bil.symm (S.A x) d]
+    ring
+  | some b =>
+    simp only
+    rw [e1]
+    simp only [hS.bil.sub_left, hS.bil.sub_right, hS.bil.smul_left, hS.bil.smul_right]
+    rw [e2, hS.bil.symm (S.A x) d]
+    ring
+
+structure SpdPost (S : Sys V K) (E0 : QE V K) (out : Out V K τ) : Prop where
+  /-- none of the three give-up exits of the algorithm is taken -/
+  noGiveUp : out.reason ≠ .curvZero ∧ out.reason ≠ .alphaNeg ∧ out.reason ≠ .gammaNeg
+  /-- every step has positive curvature and positive length -/
+  steps : ∀ it ∈ out.iters, 0 < it.alpha ∧ 0 < it.curv
+  /-- the energies of the successive energy objects are strictly decreasing (start energy first) -/
+  mono : List.Pairwise (fun a b : QE V K => b.value < a.value) (E0 :: out.made)
+  /-- the `gamma == 0` exit is taken only at the exact solution -/
+  gz : out.reason = .gammaZero → out.energy.grad = 0
+
+/-- with `⟨r, d⟩ = previous_gamma > 0` the direction is non-zero, the curvature and the step length positive -/
+theorem spd_step_facts {S : Sys V K} (hS : S.SPD) {r d : V} {pg : K} (hpg : pg = S.ip r d) (hpos : 0 < pg) :
+    0 < S.ip d (S.A d) ∧ 0 < pg / S.ip d (S.A d) := by
+  have hd : d ≠ 0 := by
+    intro h0; rw [h0, ip_zero_right hS.bil] at hpg; exact absurd hpg (ne_of_gt hpos)
+  have hcurv : 0 < S.ip d (S.A d) := hS.A_pos d hd
+  exact ⟨hcurv, div_pos hpos hcurv⟩
+
+/-- one step on a positive definite system: the energy decreases strictly and the new residual is orthogonal to
+    the old direction -/
+theorem spd_advance_facts {S : Sys V K} (hS : S.SPD) {nreset : Int} {E E' : QE V K} {r r' d : V} {pg : K} {ii1 ii' : Int}
+    (hE : E.Consistent S) (hr : r = E.grad) (hpg : pg = S.ip r d) (hpos : 0 < pg)
+    (hadv : advance S nreset E r d (S.A d) (pg / S.ip d (S.A d)) ii1 = (E', r', ii')) :
+    E'.value < E.value ∧ S.ip r' d = 0 := by
+  obtain ⟨hcurv, halpha⟩ := spd_step_facts hS hpg hpos
+  obtain ⟨hE', hr', hpos', hgrad'⟩ := advance_eq_spec S hS.lin hE hr hadv
+  have hac : pg / S.ip d (S.A d) * S.ip d (S.A d) = pg := div_mul_cancel₀ pg (ne_of_gt hcurv)
+  constructor
+  · rw [hE'.2, hpos', trueValue_step hS, ← hE.1, ← hr, ← hpg, ← hE.2]
+    have : pg / S.ip d (S.A d) * (pg / S.ip d (S.A d)) / 2 * S.ip d (S.A d)
+        = pg / S.ip d (S.A d) * pg / 2 := by
+      have h3 : pg / S.ip d (S.A d) * (pg / S.ip d (S.A d)) / 2 * S.ip d (S.A d)
+          = pg / S.ip d (S.A d) * (pg / S.ip d (S.A d) * S.ip d (S.A d)) / 2 := by ring
+      rw [h3, hac]
+    rw [this]
+    have := mul_pos halpha hpos
+    linarith
+  · rw [hr', hgrad', hS.bil.sub_left, hS.bil.smul_left, ← hpg, hS.bil.symm (S.A d) d, hac]; ring
+
+theorem pairwise_snoc_of_last {E0 E E' : QE V K} {md : List (QE V K)}
+    (hpw : List.Pairwise (fun a b : QE V K => b.value < a.value) (E0 :: md))
+    (hlast : ∀ E'' ∈ E0 :: md, E.value ≤ E''.value) (hval : E'.value < E.value) :
+    List.Pairwise (fun a b : QE V K => b.value < a.value) (E0 :: (md ++ [E'])) := by
+  rw [← List.cons_append, List.pairwise_append]
+  refine ⟨hpw, List.pairwise_singleton _ _, ?_⟩
+  intro a ha b hb
+  rw [List.mem_singleton.1 hb]
+  exact lt_of_lt_of_le hval (hlast a ha)
+
+theorem loop_spd (S : Sys V K) (hS : S.SPD) (c : Ctrl K τ) (nreset : Int) (fuel : Nat)
+    (E : QE V K) (r d : V) (pg : K) (ii : Int) (s : St τ) (ch md : List (QE V K)) (its : List (Iter K))
+    (E0 : QE V K) (hE : E.Consistent S) (hr : r = E.grad) (hpg : pg = S.ip r d) (hpos : 0 < pg)
+    (hits : ∀ it ∈ its, 0 < it.alpha ∧ 0 < it.curv)
+    (hpw : List.Pairwise (fun a b : QE V K => b.value < a.value) (E0 :: md))
+    (hlast : ∀ E'' ∈ E0 :: md, E.value ≤ E''.value) :
+    SpdPost S E0 (loop S c nreset fuel E r d pg ii s ch md its) := by
+  fun_induction loop S c nreset fuel E r d pg ii s ch md its
+  case case1 => exact ⟨by simp, hits, hpw, by simp⟩
+  case case2 fuel E r d pg ii s ch md its h =>
+    exact absurd h (ne_of_gt (spd_step_facts hS hpg hpos).1)
+  case case3 fuel E r d pg ii s ch md its _ h =>
+    exact absurd h (not_lt.2 (le_of_lt (spd_step_facts hS hpg hpos).2))
+  case case4 fuel E r d pg ii s ch md its hcurv halpha E' r' ii' hadv it h =>
+    exfalso
+    by_cases h0 : r' = 0
+    · rw [h0, ip_zero_left hS.bil] at h; exact lt_irrefl _ h
+    · exact lt_asymm (hS.P_pos r' h0) h
+  case case5 fuel E r d pg ii s ch md its hcurv halpha E' r' ii' hadv it hgam h =>
+    obtain ⟨hc, ha⟩ := spd_step_facts hS hpg hpos
+    obtain ⟨hval, _⟩ := spd_advance_facts hS hE hr hpg hpos hadv
+    obtain ⟨hE', hr', _, _⟩ := advance_eq_spec S hS.lin hE hr hadv
+    refine ⟨by simp, forall_mem_snoc hits ⟨ha, hc⟩, pairwise_snoc_of_last hpw hlast hval, ?_⟩
+    intro _
+    show E'.grad = 0
+    rw [← hr']
+    by_contra h0
+    exact absurd h (ne_of_gt (hS.P_pos r' h0))
+  case case6 fuel E r d pg ii s ch md its hcurv halpha E' r' ii' hadv it hgam hgz hchk =>
+    obtain ⟨hc, ha⟩ := spd_step_facts hS hpg hpos
+    obtain ⟨hval, _⟩ := spd_advance_facts hS hE hr hpg hpos hadv
+    exact ⟨by simp, forall_mem_snoc hits ⟨ha, hc⟩, pairwise_snoc_of_last hpw hlast hval, by simp⟩
+  case case7 fuel E r d pg ii s ch md its hcurv halpha E' r' ii' hadv it hgam hgz s1 status hchk hst =>
+    obtain ⟨hc, ha⟩ := spd_step_facts hS hpg hpos
+    obtain ⟨hval, _⟩ := spd_advance_facts hS hE hr hpg hpos hadv
+    exact ⟨by simp, forall_mem_snoc hits ⟨ha, hc⟩, pairwise_snoc_of_last hpw hlast hval, by simp⟩
+  case case8 fuel E r d pg ii s ch md its hcurv halpha E' r' ii' hadv it hg1 hg2 s1 status hchk hst ih =>
+    obtain ⟨hc, ha⟩ := spd_step_facts hS hpg hpos
+    obtain ⟨hval, hrd⟩ := spd_advance_facts hS hE hr hpg hpos hadv
+    obtain ⟨hE', hr', _, _⟩ := advance_eq_spec S hS.lin hE hr hadv
+    have hgpos : 0 < S.ip r' (precond S r') := lt_of_le_of_ne (not_lt.1 hg1) (Ne.symm hg2)
+    apply ih hE' hr' _ hgpos (forall_mem_snoc hits ⟨ha, hc⟩) (pairwise_snoc_of_last hpw hlast hval)
+    · intro E'' hE''
+      rw [← List.cons_append] at hE''
+      rcases List.mem_append.1 hE'' with h | h
+      · exact le_trans (le_of_lt hval) (hlast E'' h)
+      · rw [List.mem_singleton.1 h]
+    · -- the new direction keeps `⟨r, d⟩ = gamma`, because `⟨r', d⟩ = 0`
+      rw [hS.bil.add_right, hS.bil.smul_right, hrd]; ring
+
+/-- `cg` on a positive definite system -/
+theorem cg_spd (S : Sys V K) (hS : S.SPD) (c : Ctrl K τ) (nreset : Int) (fuel : Nat) (E : QE V K)
+    (hE : E.Consistent S) : SpdPost S E (cg S c nreset fuel E) := by
+  unfold cg
+  split
+  · exact ⟨by simp, by simp, by simp, by simp⟩
+  · split
+    · exact ⟨by simp, by simp, by simp, by simp⟩
+    · dsimp only
+      split
+      · exact ⟨by simp, by simp, by simp, by simp⟩
+      · rename_i hpg
+        have hne : E.grad ≠ 0 := by
+          intro h0; apply hpg; rw [h0, ip_zero_left hS.bil]
+        exact loop_spd S hS c nreset fuel E E.grad (precond S E.grad) (S.ip E.grad (precond S E.grad)) 0 _ [E] [] []
+          E hE rfl rfl (hS.P_pos _ hne) (by simp) (by simp) (by simp)
+
 end NiftyVerif.CgClassic
